@@ -1,15 +1,20 @@
 #!/bin/bash
-# Applies every kept seed to /repo in turn, runs the quick check of its property, reverts. Prints one line per seed.
-cd /verif
-for d in seeded/*/; do
-  id=$(basename $d); prop=${id%%-*}
-  if grep -q "\"status\": \"obsolete" /verif/$d/meta.json 2>/dev/null; then echo "$id OBSOLETE (see meta.json)"; continue; fi
-  cd /repo && git apply /verif/$d/patch.diff 2>/dev/null || { echo "$id PATCH-DOES-NOT-APPLY"; cd /verif; continue; }
-  out=$(cd /verif && timeout 300 /venv/bin/python -m wverif check $prop --no-write 2>&1)
+# Replays every kept seed: applies seeded/<id>/patch.diff to a scratch export of /repo HEAD (in /dev/shm, removed
+# afterwards), runs the quick check of its property against it with --root, prints one line per seed (sorted).
+# Nothing is written to /repo or to evidence/.   usage: tools/run_seeds.sh [id...]
+one() {
+  id=$1; prop=${id%%-*}; d=/verif/seeded/$id
+  if grep -q "\"status\": \"obsolete" $d/meta.json 2>/dev/null; then echo "$id OBSOLETE (see meta.json)"; return; fi
+  w=/dev/shm/seedrun_$id
+  rm -rf $w; mkdir -p $w
+  git -C /repo archive HEAD | tar -x -C $w
+  if ! (cd $w && git apply --unsafe-paths --directory=$w $d/patch.diff 2>/dev/null || patch -s -p1 -d $w < $d/patch.diff >/dev/null 2>&1); then echo "$id PATCH-DOES-NOT-APPLY"; rm -rf $w; return; fi
+  out=$(cd /verif && timeout 300 /venv/bin/python -m wverif check $prop --root $w --no-write 2>&1)
   code=$?
-  git -C /repo checkout -- . 
+  rm -rf $w
   first=$(echo "$out" | grep -E "^  C" | head -1 | cut -c1-120)
   echo "$id exit=$code $first"
-  cd /verif
-done
-git -C /repo status --short | head -3
+}
+export -f one
+if [ $# -gt 0 ]; then ids="$@"; else ids=$(ls /verif/seeded); fi
+printf "%s\n" $ids | xargs -P 10 -I{} bash -c 'one {}' | sort
